@@ -66,6 +66,15 @@ def firmware_bytes(fw):
     if kind == 'ff':
         return b'\xff' * n
     r = random.Random(seed)
+    if kind == 'suffix':
+        # an image that ends in a well-formed 16-byte DFU file suffix (bcdDevice, idProduct, idVendor, bcdDFU, 'UFD', 16, CRC):
+        # it is still just a file of n bytes as far as C18/C19 are concerned
+        import struct
+        import zlib
+        body = r.randbytes(max(0, n - 16))
+        suf = struct.pack('<HHHH3sB', 0xFFFF, fw.get('pid', 0x0189), fw.get('vid', 0x28e9), 0x0100, b'UFD', 16)
+        crc = (zlib.crc32(body + suf) ^ 0xFFFFFFFF) & 0xFFFFFFFF
+        return (body + suf + struct.pack('<I', crc))[-n:] if n >= 16 else (suf + struct.pack('<I', crc))[:n]
     if kind == 'tail':
         head = max(0, min(n, fw.get('head', n)))
         return r.randbytes(head) + bytes([fw.get('fill', 255)]) * (n - head)
@@ -165,6 +174,7 @@ def execute(scen, res, log):
             os.unlink(path)
         except OSError:
             pass
+    clock.flush()
     log.add('end', outcome, detail[:120])
     return {'outcome': outcome, 'detail': detail, 'stdout': out.getvalue(), 'stderr': err.getvalue(),
             'dev': dev, 'clock': clock, 'fw': fw, 'init': init, 'size': size}
@@ -184,14 +194,31 @@ T_CLASSES = ((0, 0), (1, 10), (11, 255), (256, 65535), (65536, (1 << 24) - 1))
 
 
 def draw_timeout(r, zero_bias=0.3):
+    """Poll delays in every byte class of bwPollTimeout.  Delays above 65 s are kept rare and mostly just above the byte
+    boundary: virtual time is free for the simulator, but a host that sleeps in slices pays per slice and must still
+    be able to finish a run inside the wall-clock cap."""
     if r.random() < zero_bias:
         return 0
-    lo, hi = r.choice(T_CLASSES[1:])
-    return r.randint(lo, hi)
+    c = r.random()
+    if c < 0.45:
+        return r.randint(1, 10)
+    if c < 0.80:
+        return r.randint(11, 255)
+    if c < 0.92:
+        return r.choice((256, 257, 300, 511, 1000, r.randint(256, 2000)))
+    if c < 0.97:
+        return r.choice((4096, 65535, r.randint(2001, 65535)))
+    if c < 0.9999:
+        return r.choice((65536, 65537, 65791, 66000, 70000, 131072, r.randint(65536, 200000)))
+    return r.choice(((1 << 24) - 1, 1 << 23, r.randint(65536, (1 << 24) - 1)))
 
 
 def draw_entry(r):
     n = r.choice((0, 0, 1, 1, 1, 2, 2, 3, r.randint(3, 6)))
+    if r.random() < 0.02:
+        # a long busy phase: the same state reported many times in a row (small delays)
+        n = r.choice((23, 24, 25, 40, 100))
+        return [[r.choice((0, 1, 1, 2, 5)) for _ in range(n)], 0]
     return [[draw_timeout(r, 0.15) for _ in range(n)], 0]
 
 
@@ -200,8 +227,12 @@ def canonical_sched(k, nops=0):
         return {'init': 0, 'idle': 0, 'ops': {}, 'default': [[], 0]}
     if k == 1:      # ST firmware pattern: exactly one busy poll per operation
         return {'init': 0, 'idle': 0, 'ops': {}, 'default': [[50], 0]}
-    # heavy: three busy polls exercising every byte of bwPollTimeout, and delays on idle replies
-    return {'init': 3, 'idle': 2, 'ops': {}, 'default': [[1, 300, 70000], 5]}
+    # heavy: busy polls exercising every byte of bwPollTimeout (the 70 s one on the first and the last operation only),
+    # a long busy phase on the second operation, and delays on idle replies
+    ops = {'0': [[1, 300, 70000], 5], '1': [[1] * 30, 0]}
+    if nops > 2:
+        ops[str(nops - 1)] = [[2, 66000], 3]
+    return {'init': 3, 'idle': 2, 'ops': ops, 'default': [[1, 300], 5]}
 
 
 def draw_sched(r, nops, knobs):
@@ -215,6 +246,11 @@ def draw_sched(r, nops, knobs):
     if knobs.get('idle_timeouts'):
         sched['idle'] = draw_timeout(r, 0.0)
         sched['default'][1] = draw_timeout(r, 0.3)
+    if nops > 12:
+        # the default entry applies to every operation of a large image: keep its delays (and the idle delay) below 256 ms so
+        # that the simulated time per run stays bounded; the long delays live in the per-operation overrides below
+        sched['default'] = [[min(t, 1 + t % 255) for t in sched['default'][0]], min(sched['default'][1], 1 + sched['default'][1] % 255)]
+        sched['idle'] = min(sched['idle'], 1 + sched['idle'] % 255)
     if nops and not knobs.get('all_zero'):
         k = r.choice((0, 1, 2, 4, 8, 12))
         picks = set()
